@@ -1332,6 +1332,7 @@ def build(tier='quick', seed=0):
     extra = '\npub const fn pred_point_c(p: &Point) -> bool { p.x != p.y }\n'
     for i, ch in enumerate(chunks):
         crates[f'cfull{i}'] = {'features': ['serde', 'arbitrary', 'new_unchecked', 'regex', 'schemars08'], 'std': True,
+                               'edition': '2024' if i == 1 else '2021',    # one chunk of the grid is an edition-2024 user crate
                                'prelude': PRELUDE_STD + PRELUDE_REGEX + extra + numeric_prelude(), 'decls': ch}
     bare = []
     for d in full:
